@@ -16,6 +16,9 @@ def run(ctx):
     cfgs = [(3, 2, 1), (4, 1, 1)] if q else [(4, 2, 1), (3, 2, 2), (5, 1, 1)]
     for turns, reactions, eb in cfgs:
         ctx.run_shards(b, ["--turns", str(turns), "--reactions", str(reactions), "--eb", str(eb)], label="server loop turns=%d reactions=%d eb=%d" % (turns, reactions, eb))
+    m = c13.build_multi(ctx)
+    mt, meb, mrb = (3, 2, 1) if q else (4, 2, 1)
+    ctx.run_shards(m, ["--prop", "C14", "--turns", str(mt), "--eb", str(meb), "--rb", str(mrb)], label="two clients turns=%d eb=%d rb=%d" % (mt, meb, mrb))
     seq_exec = int(ctx.counters.get("executions", 0))
     seq_trans = int(ctx.counters.get("app_turns", 0) + ctx.counters.get("reactions", 0) + ctx.counters.get("timer_activations", 0) + ctx.counters.get("onRead", 0))
     # threaded part: interrupt() from a second thread
@@ -32,9 +35,11 @@ def run(ctx):
                            "with up to %s environment deviations (clock overshoot by 1 ms, jump over several intervals, reversed readiness order), second run() after an interrupt; "
                            "oracle: activation never before due and in due order within a pass, activation count == floor((now - t0)/interval) at every poll, no callback after remove() "
                            "(callback objects are freed on removal: ASan), readable / closed clients dispatched before the loop idles, onClosed exactly once, no onRead while "
-                           "suspended, run() returns only after interrupt() and within 3 polls of it. threaded: run() (once or twice) against interrupt() (once or twice) from a "
+                           "suspended, run() returns only after interrupt() and within 3 polls of it. two clients with send backlogs (%d turns, <= %d send deviations, <= %d reactions): "
+                           "onRead / onWrite of one client suspends, resumes or removes the other while read|write events for both are buffered by the same poll round; oracle: only "
+                           "event kinds the client is registered for, nothing after remove(). threaded: run() (once or twice) against interrupt() (once or twice) from a "
                            "second thread with the event descriptor and epoll_wait modelled by the scheduler, every schedule with <= %d preemptions"
-                           % ("/".join(str(x[0]) for x in cfgs), "/".join(str(x[1]) for x in cfgs), "/".join(str(x[2]) for x in cfgs), pb),
+                           % ("/".join(str(x[0]) for x in cfgs), "/".join(str(x[1]) for x in cfgs), "/".join(str(x[2]) for x in cfgs), mt, meb, mrb, pb),
                       {"sequential_executions": seq_exec, "sequential_transitions": seq_trans})
     cov["states"] += 0
     cov["transitions"] += seq_trans
@@ -47,7 +52,7 @@ def replay(ctx, rp):
         return SL.replay(ctx, rp, build_threaded(ctx))
     import subprocess
     from engine.driver import ASAN_ENV
-    b = build_loop(ctx)
+    b = c13.build_multi(ctx) if rp.get("binary", "").startswith("server_multi") else build_loop(ctx)
     choices = rp["case"].split("choices=")[1].split(" ")[0]
     clean = []; skip = False
     for a in rp.get("args", []):
